@@ -489,8 +489,11 @@ func run(tier string, sh *vkit.Shard, p *vkit.Part) {
 									if !(fin && op == wsgen.OpCont) {
 										fr = append(fr, completion(server, 3))
 									}
-									c := &caseSpec{Server: server, Family: fmt.Sprintf("hdr%d", pi), Frames: fr}
 									opt := smallOpt()
+									opt.AllDoubleMax = 16 // every double cut of the short sequences
+									if thorough {
+										opt.AllDoubleMax = 40
+									}
 									if lf.plen > 4096 {
 										opt = bigOpt()
 										if !thorough && rsv != 0 && rsv != 4 && rsv != 1 {
@@ -498,7 +501,11 @@ func run(tier string, sh *vkit.Shard, p *vkit.Part) {
 											continue
 										}
 									}
-									runBase(c, p, opt)
+									runBase(&caseSpec{Server: server, Family: fmt.Sprintf("hdr%d", pi), Frames: fr}, p, opt)
+									if thorough && lf.plen <= 4096 {
+										// cleanup right after the closing handler instead of after Parse
+										runBase(&caseSpec{Server: server, CAH: true, Family: fmt.Sprintf("hdr%d", pi), Frames: fr}, p, smallOpt())
+									}
 								}
 							}
 						}
@@ -564,6 +571,19 @@ func run(tier string, sh *vkit.Shard, p *vkit.Part) {
 					{T(false, op, 4, 0, 0), T(true, wsgen.OpPing, 0, 1, 1), T(true, wsgen.OpCont, 0, 0, 2)},
 				} {
 					runBase(&caseSpec{Server: server, Comp: true, Family: "comp-zero-length", Frames: fr}, p, smallOpt())
+				}
+			}
+			// compressed text whose INFLATED content is (in)valid UTF-8, whole and in two fragments
+			for _, t := range []string{"ok \xe2\x82\xac", "bad \xc0\xaf!", "\xed\xa0\x80", "trunc \xe2\x82", "\xf4\x90\x80\x80 tail"} {
+				z := wsgen.Deflate([]byte(t), 1)
+				h, _ := raw(z)
+				runBase(&caseSpec{Server: server, Comp: true, Family: "comp-utf8", Frames: []frameSpec{{Fin: true, Rsv: 4, Op: wsgen.OpText, Masked: server, Raw: h, HasRaw: true}}}, p, smallOpt())
+				for k := 0; k <= len(z); k++ {
+					h1, _ := raw(z[:k])
+					h2, _ := raw(z[k:])
+					runBase(&caseSpec{Server: server, Comp: true, Family: "comp-utf8-split", Frames: []frameSpec{
+						{Fin: false, Rsv: 4, Op: wsgen.OpText, Masked: server, Raw: h1, HasRaw: true},
+						{Fin: true, Op: wsgen.OpCont, Masked: server, Raw: h2, HasRaw: true}}}, p, smallOpt())
 				}
 			}
 		}
@@ -748,7 +768,7 @@ func replay(scenario string, input json.RawMessage) string {
 func main() {
 	vkit.Main(&vkit.Spec{
 		Property: "C13", Level: "model_checking",
-		Rule: "one case = (receiver role, frame sequence) x one segmentation; frame sequences: the full first-frame header space FIN x RSV1-3 x 16 opcodes x MASK x 8 length forms (0, 1, 125, 126/16-bit, 65536/64-bit, 64-bit with top bit set, two non-minimal encodings), the same space as second frame after a non-final text start and after start+ping, the opcode x RSV x FIN space with permessage-deflate negotiated, 33 UTF-8 classes x 4 embeddings whole and split across two fragments at every byte (text and binary), close frames with all 65536 status codes x 6 body variants, ping/pong of every length 0..126, 13 longer sequences; segmentations: one piece, every single cut, byte-at-a-time (structural cuts + 4093-byte chunks for the 64 KiB frames). Every case is non-trivial (each is a distinct frame sequence/segmentation judged by the RFC predicate). states = distinct private parser states after the Parse calls, transitions = Parse calls.",
+		Rule: "one case = (receiver role, frame sequence) x one segmentation; frame sequences: the full first-frame header space FIN x RSV1-3 x 16 opcodes x MASK x 8 length forms (0, 1, 125, 126/16-bit, 65536/64-bit, 64-bit with top bit set, two non-minimal encodings), the same space as second frame after a non-final text start and after start+ping, the opcode x RSV x FIN space with permessage-deflate negotiated, 33 UTF-8 classes x 4 embeddings whole and split across two fragments at every byte (text and binary), close frames with all 65536 status codes x 6 body variants, ping/pong of every length 0..126, 13 longer sequences; segmentations: one piece, every single cut, byte-at-a-time, every double cut of header-space sequences up to 16 B (thorough 40 B) and of the longer sequences up to 64 B (structural cuts + 4093-byte chunks for the 64 KiB frames). Every case is non-trivial (each is a distinct frame sequence/segmentation judged by the RFC predicate). states = distinct private parser states after the Parse calls, transitions = Parse calls.",
 		Assumptions: []string{
 			"oracle = wsgen.Judge, an RFC 6455 acceptance predicate written independently of nbio: reserved bits (RSV1 only when permessage-deflate is negotiated and only on the first frame of a data message), reserved opcodes, fragmented or >125-byte control frames, continuation without start, text/binary inside a fragmented message, invalid UTF-8 in a complete text message or close reason, 1-byte close body, close codes <1000, 1004-1006, 1016-2999, 64-bit length with the top bit set",
 			"not judged (may be accepted or refused; if accepted the rest is judged): wrong mask direction, non-minimal length encodings, close codes 1012-1015 and >= 5000, RSV1 on control/continuation frames when compression is negotiated",
